@@ -3,6 +3,8 @@ CONSTANTS
   Classes <- Classes4
   Outs <- OutsFull
   Durs = {0, 1, 3}
+  CDurs <- SomeDur
+  EDurs <- SomeDur
   Rets <- RetsAll
   Advs <- AdvsFull
   Decs <- DecsAll
